@@ -37,4 +37,15 @@
     while(_ln > 0) { long _lh = _ln / 2; T *_lm = _lf + _lh; if(CMP(_lc, _lm, (valp))) { _lf = _lm + 1; _ln -= _lh + 1; } else _ln = _lh; } _lf; })
 #define STD_UPPER_BOUND(T, first, last, valp, CMP, clos) ({ T *_uf = (first); long _un = (last) - _uf; const void *_uc = (clos); \
     while(_un > 0) { long _uh = _un / 2; T *_um = _uf + _uh; if(!CMP(_uc, (valp), _um)) { _uf = _um + 1; _un -= _uh + 1; } else _un = _uh; } _uf; })
+/* std::set<T> of scalars: bounded array, linear search (only insert / size / empty / clear are used) */
+#ifndef VERIF_SET_MODEL_DEFINED
+#ifndef SET_CAP
+#define SET_CAP 8
+#endif
+#define STD_SET_TYPE(NAME, T) struct NAME { T data[SET_CAP]; unsigned long size; }; \
+  static inline void NAME##__insert(struct NAME *v, T x) { for(unsigned long _i = 0; _i < SET_CAP; ++_i) if(_i < v->size && v->data[_i] == x) return; __CPROVER_assert(v->size < SET_CAP, "model: std::set capacity SET_CAP sufficient"); v->data[v->size] = x; v->size++; } \
+  static inline unsigned long NAME##__size(const struct NAME *v) { return v->size; } \
+  static inline _Bool NAME##__empty(const struct NAME *v) { return v->size == 0; } \
+  static inline void NAME##__clear(struct NAME *v) { v->size = 0; }
+#endif
 #endif
